@@ -68,6 +68,20 @@ func entryFixture() string {
 		os.WriteFile(filepath.Join(w, "sp ace.md"), []byte("x"), 0o644)
 		os.WriteFile(filepath.Join(w, "dir", "in.go"), []byte("x"), 0o644)
 		os.WriteFile(filepath.Join(w, "日本.txt"), []byte("x"), 0o644)
+		// configuration directories: XDG_CONFIG_HOME=$FIX/cfg/<variant>
+		for name, content := range map[string]string{
+			"valid":     `{"carapace":{"Value":"red","Description":"blue"}}`,
+			"trailing1": `{"carapace":{"Value":"red"}}}`,
+			"trailing2": `{"carapace":{"Value":"red"}}{"x":{}}`,
+			"trailing3": `{"carapace":{"Value":"red"}} trailing`,
+			"truncated": `{"carapace":{"Value":`,
+			"wrongtype": `{"carapace":5}`,
+			"casekeys":  `{"carapace":{"Value":"red","value":"blue","VALUE":"green","Description":"yellow","description":"magenta"}}`,
+		} {
+			cd := filepath.Join(d, "cfg", name, "carapace")
+			os.MkdirAll(cd, 0o755)
+			os.WriteFile(filepath.Join(cd, "styles.json"), []byte(content), 0o644)
+		}
 		os.MkdirAll(filepath.Join(d, "named"), 0o755)
 		os.WriteFile(filepath.Join(d, "named", "inside.txt"), []byte("x"), 0o644)
 		entryFix = d
@@ -118,6 +132,16 @@ func runEntry(raw json.RawMessage) interface{} {
 	cmd.Stderr = &se
 	cmd.WaitDelay = time.Second
 	rerr := cmd.Run()
+	// a configuration whose keys collide: the same call again must give the same bytes
+	stdout2 := ""
+	if strings.Contains(in.Env["XDG_CONFIG_HOME"], "casekeys") {
+		for k := 0; k < 6 && (stdout2 == "" || stdout2 == so.String()); k++ {
+			c2 := exec.Command(shellLink(in.Ancestor), args...)
+			c2.Env, c2.Dir = env, cmd.Dir
+			b, _ := c2.Output()
+			stdout2 = string(b)
+		}
+	}
 	timedOut := errors.Is(ctx.Err(), context.DeadlineExceeded)
 	exit := -1
 	stderr := se.String()
@@ -139,7 +163,7 @@ func runEntry(raw json.RawMessage) interface{} {
 	if rerr != nil {
 		runErr = rerr.Error()
 	}
-	return map[string]interface{}{"exit": exit, "stdout": strings.ReplaceAll(stdout, fix, "$FIX"), "stderr": strings.ReplaceAll(stderr, fix, "$FIX"), "timedOut": timedOut, "truncated": truncated, "runErr": runErr}
+	return map[string]interface{}{"exit": exit, "stdout": strings.ReplaceAll(stdout, fix, "$FIX"), "stderr": strings.ReplaceAll(stderr, fix, "$FIX"), "timedOut": timedOut, "truncated": truncated, "runErr": runErr, "repeatDiffers": stdout2 != "" && stdout2 != so.String()}
 }
 
 // ---- the child
@@ -426,6 +450,10 @@ func genEntry(r *rng, tier string) interface{} {
 	}
 	if r.chance(5) {
 		in.Env["XDG_CONFIG_HOME"] = pick(r, []string{"", "/nonexistent", "relative", "$FIX/work/a.txt"})
+	}
+	if r.chance(12) {
+		in.Env["XDG_CONFIG_HOME"] = "$FIX/cfg/" + pick(r, []string{"valid", "trailing1", "trailing2", "trailing3", "truncated", "wrongtype", "casekeys", "casekeys"})
+		delete(in.Env, "NO_COLOR")
 	}
 	return in
 }
